@@ -3,6 +3,7 @@ package traceroute
 import (
 	"context"
 	"errors"
+	"fmt"
 	"sync"
 	"time"
 
@@ -25,6 +26,11 @@ func NewTraceroute() *Traceroute {
 
 func (t Traceroute) RunTraceroute(ctx context.Context, params TracerouteParams) (*result.Results, error) {
 	log.Infof("Running traceroute with params: %+v", params)
+
+	// TTLs travel in a single byte: reject bounds that would otherwise be silently truncated
+	if params.MinTTL < 1 || params.MaxTTL > 255 || params.MinTTL > params.MaxTTL {
+		return nil, fmt.Errorf("invalid TTL range: min TTL %d and max TTL %d must satisfy 1 <= min <= max <= 255", params.MinTTL, params.MaxTTL)
+	}
 
 	destinationPort := params.Port
 	if destinationPort == 0 {
